@@ -8,6 +8,7 @@ import (
 	"math/rand"
 	"strconv"
 	"strings"
+	"time"
 	"unicode/utf16"
 
 	"github.com/robertkrimen/otto"
@@ -115,7 +116,7 @@ func (g *gen) str(allowLone bool) []uint16 {
 	return u
 }
 
-var keyPool = []string{"a", "b", "c", "", "1", "0", "k", "w", "é", "z", "A", "10", "-1", "x y", "€", "<", "😀", "￿", "ab", "__proto__", "length", "constructor"}
+var keyPool = []string{"a", "b", "c", "s", "s", "c", "", "1", "0", "k", "w", "é", "z", "A", "10", "-1", "x y", "€", "<", "😀", "￿", "ab", "__proto__", "length", "constructor"}
 
 func (g *gen) key() []uint16 {
 	if g.r.Intn(5) == 0 {
@@ -688,6 +689,11 @@ func (v *jsv) coq() string {
 		return "(Obj " + Clist(it) + ")"
 	case "toj":
 		return fmt.Sprintf("(ToJ %d %s)", v.k, v.inner.coq())
+	case "date":
+		if math.IsNaN(v.f) {
+			return "(ToJ 0 Null)"
+		}
+		return "(ToJ 0 (Str " + Cstr(time.UnixMilli(int64(v.f)).UTC().Format("2006-01-02T15:04:05.000Z")) + "))"
 	case "cyc":
 		return "(Cyc " + Cbool(v.isArr) + ")"
 	case "ref":
@@ -719,13 +725,15 @@ func (b *builder) build(v *jsv) string {
 	case "num":
 		return JSNum(v.f)
 	case "wnum":
-		return "new Number(" + JSNum(v.f) + ")"
+		return b.bind(v, "new Number("+JSNum(v.f)+")")
 	case "str":
 		return jsStrExpr(v.s)
 	case "wstr":
-		return "new String(" + jsStrExpr(v.s) + ")"
+		return b.bind(v, "new String("+jsStrExpr(v.s)+")")
 	case "wbool":
-		return "new Boolean(" + strconv.FormatBool(v.b) + ")"
+		return b.bind(v, "new Boolean("+strconv.FormatBool(v.b)+")")
+	case "date":
+		return b.bind(v, "new Date("+JSNum(v.f)+")")
 	case "fun":
 		return "function(){}"
 	case "cyc":
@@ -765,17 +773,26 @@ func (b *builder) build(v *jsv) string {
 	case "toj":
 		switch v.k {
 		case 1:
-			return "{toJSON:function(key){return key}}"
+			return b.bind(v, "{toJSON:function(key){return key}}")
 		case 2:
-			return "{toJSON:function(key){return undefined}}"
+			return b.bind(v, "{toJSON:function(key){return undefined}}")
 		case 3:
-			return "{toJSON:function(key){return typeof this.toJSON}}"
+			return b.bind(v, "{toJSON:function(key){return typeof this.toJSON}}")
 		}
 		inner := &builder{g: b.g, n: b.n}
 		e := inner.build(v.inner)
-		return "{toJSON:function(key){" + strings.Join(inner.stmts, "") + "return " + e + "}}"
+		return b.bind(v, "{toJSON:function(key){"+strings.Join(inner.stmts, "")+"return "+e+"}}")
 	}
 	panic("kind")
+}
+
+// a non-container object gets a variable of its own so that the same object can be used again
+func (b *builder) bind(v *jsv, expr string) string {
+	name := fmt.Sprintf("c%d", *b.n)
+	*b.n++
+	b.stmts = append(b.stmts, "var "+name+"="+expr+";")
+	v.name = name
+	return name
 }
 
 // cyc nodes below v that were generated for "the container v" get its variable name
@@ -800,16 +817,50 @@ func setName(v *jsv, name string) {
 type sopt struct {
 	cyc     float64 // probability weight of cyclic references
 	jsonish bool    // only what has a JSON representation, plus undefined/function members
+	share   float64 // probability, at every node, of using an object generated earlier in the case once more
+}
+
+func hasRef(v *jsv) bool {
+	if v.kind == "ref" {
+		return true
+	}
+	for _, x := range v.items {
+		if hasRef(x) {
+			return true
+		}
+	}
+	return v.kind == "toj" && v.inner != nil && hasRef(v.inner)
+}
+
+// record an object that later nodes of the case may refer to again
+func (g *gen) done(v *jsv) *jsv {
+	if !hasCyc(v) {
+		g.completed = append(g.completed, v)
+	}
+	return v
 }
 
 func (g *gen) jsValue(depth int, ancestors []*jsv, o sopt) *jsv {
 	r := g.r
+	if len(g.completed) > 0 && r.Float64() < o.share {
+		return &jsv{kind: "ref", inner: Pick(r, g.completed)}
+	}
 	k := r.Intn(22)
 	if depth <= 0 && k >= 14 {
 		k = r.Intn(14)
 	}
+	if o.share > 0 && depth > 0 && k < 8 && r.Intn(3) == 0 {
+		k = 14 + r.Intn(8) // more containers where sharing is wanted
+	}
 	switch k {
 	case 0:
+		if !o.jsonish && r.Intn(3) == 0 {
+			ms := float64(r.Int63n(4e12))
+			if r.Intn(6) == 0 {
+				ms = math.NaN()
+			}
+			return g.done(&jsv{kind: "date", f: ms})
+		}
 		return &jsv{kind: "null"}
 	case 1:
 		return &jsv{kind: "bool", b: r.Intn(2) == 0}
@@ -825,12 +876,12 @@ func (g *gen) jsValue(depth int, ancestors []*jsv, o sopt) *jsv {
 		if o.jsonish {
 			return &jsv{kind: "num", f: float64(r.Intn(100))}
 		}
-		return &jsv{kind: "wnum", f: g.double()}
+		return g.done(&jsv{kind: "wnum", f: g.double()})
 	case 11:
 		if o.jsonish {
 			return &jsv{kind: "str", s: g.str(false)}
 		}
-		return Pick(r, []*jsv{{kind: "wstr", s: g.str(true)}, {kind: "wbool", b: r.Intn(2) == 0}})
+		return g.done(Pick(r, []*jsv{{kind: "wstr", s: g.str(true)}, {kind: "wbool", b: r.Intn(2) == 0}}))
 	case 12:
 		if o.jsonish || depth <= 0 {
 			return &jsv{kind: "null"}
@@ -844,7 +895,7 @@ func (g *gen) jsValue(depth int, ancestors []*jsv, o sopt) *jsv {
 		} else {
 			v.inner = &jsv{kind: "null"}
 		}
-		return v
+		return g.done(v)
 	case 13:
 		if len(ancestors) > 0 && r.Float64() < o.cyc {
 			a := Pick(r, ancestors)
@@ -894,6 +945,9 @@ var replacers = []string{
 	`function(k,v){return k===""?{w:v}:v}`,
 	`function(k,v){return Array.isArray(v)?null:v}`,
 	`function(k,v){return (typeof this==="object"&&this!==null&&typeof k==="string"&&(this[k]===v||v!==v||typeof this[k]==="object"))?v:"BAD HOLDER"}`,
+	`(function(){var SH=[1,[2]];return function(k,v){return k==="s"?SH:v}})()`, // the same array returned for every key "s"
+	`function(k,v){return typeof v==="number"?new Number(v):(typeof v==="boolean"?new Boolean(v):v)}`,
+	`function(k,v){return k==="c"?this:v}`, // a cycle made by the replacer
 }
 
 func (g *gen) replacer() (string, string) { // JS, Coq
@@ -901,7 +955,7 @@ func (g *gen) replacer() (string, string) { // JS, Coq
 	switch r.Intn(8) {
 	case 0, 1, 2:
 		return Pick(r, []string{"undefined", "null", "undefined", "{}", "\"a\"", "1"}), "RNone"
-	case 3, 4:
+	case 3, 4, 5:
 		id := r.Intn(len(replacers))
 		return replacers[id], fmt.Sprintf("(RFun %d)", id)
 	default:
@@ -1130,8 +1184,24 @@ func runC11(env *Env) {
 			g.caseParseArg(a[0], second, ascii(a[1]))
 		case k < 51:
 			g.caseOrder(9 + r.Intn(12))
+		case k < 62: // DAG-shaped values: objects of every kind used two or three times at different depths
+			o := sopt{cyc: 0.25, share: 0.3}
+			var v *jsv
+			for try := 0; ; try++ {
+				g.completed = nil
+				v = g.jsValue(2+r.Intn(3), nil, o)
+				if (v.kind == "arr" || v.kind == "obj") && (hasRef(v) || try > 40) {
+					break
+				}
+			}
+			repJS, repCoq, spJS, spCoq := "undefined", "RNone", "undefined", "SNone"
+			if r.Intn(2) == 0 {
+				repJS, repCoq = g.replacer()
+				spJS, spCoq = g.space()
+			}
+			g.caseStringify(v, repJS, repCoq, spJS, spCoq, "stringify-dag")
 		case k < 85: // stringify
-			o := sopt{cyc: 0.5}
+			o := sopt{cyc: 0.5, share: 0.04}
 			if r.Intn(3) == 0 {
 				o.jsonish = true
 			}
